@@ -11,6 +11,7 @@ from ..oracle import WalkOracle, Or, And
 from ..harness import Query
 
 ID = 'C14'
+BUILD_PROBES = True   # evidence: the states behind the recorded findings are produced by the real builder
 ASSUMPTIONS = [
     'graph state satisfies the representation invariant of DESIGN.md section 3; in particular entries at redirect sources, redirect cycles and Pending entries are NOT excluded',
     'MAX_REDIRECTS behaviour is only exercised by the redirect-only worlds with N >= 11',
